@@ -196,16 +196,21 @@ uint64_t __g_vec_b;   /* ghost: arbitrary-but-fixed byte index observed by the c
 #else
 #define CXX_RESERVE_BYTES(c, T) ((c) * sizeof(T))
 #endif
+#ifdef CXX_FIXED_STORAGE   /* bounded groups: constant-size element storage (see cxx_str_bytes) */
+static inline uint64_t cxx_vec_bytes(uint64_t n, uint64_t sz) { CXX_MODEL_BOUND(n <= CXX_VEC_CAP); return CXX_VEC_CAP * sz; }
+#else
+static inline uint64_t cxx_vec_bytes(uint64_t n, uint64_t sz) { return n * sz; }
+#endif
 #define CXX_VEC(T, S) \
   static inline void vec_##S##_resize(vec_##S *v, uint64_t n) \
   __CPROVER_requires(__CPROVER_rw_ok(v, sizeof(*v)) && n <= 0x0FFFFFFFFFFFFFFFul / sizeof(T)) \
   __CPROVER_assigns(v->p, v->n, v->cap) \
   __CPROVER_ensures(v->n == n && v->cap == n && (n == 0 || __CPROVER_is_fresh(v->p, n * sizeof(T)))) \
-  { T *np = (T *)cxx_alloc(n * sizeof(T)); \
+  { T *np = (T *)cxx_alloc(cxx_vec_bytes(n, sizeof(T))); \
     for (uint64_t __k = 0; __k < n; ++__k) { if (__k < v->n) np[__k] = v->p[__k]; else { T z = {0}; np[__k] = z; } } \
     v->p = np; v->n = n; v->cap = n; } \
   static inline void vec_##S##_resize_fill(vec_##S *v, uint64_t n, T val) \
-  { T *np = (T *)cxx_alloc(n * sizeof(T)); \
+  { T *np = (T *)cxx_alloc(cxx_vec_bytes(n, sizeof(T))); \
     for (uint64_t __k = 0; __k < n; ++__k) { if (__k < v->n) np[__k] = v->p[__k]; else np[__k] = val; } \
     v->p = np; v->n = n; v->cap = n; } \
   static inline void vec_##S##_clear(vec_##S *v) { v->n = 0; } \
@@ -241,7 +246,7 @@ uint64_t __g_vec_b;   /* ghost: arbitrary-but-fixed byte index observed by the c
   static inline void vec_##S##_pop_back(vec_##S *v) { CXX_ASSERT(v->n > 0, "pop_back on empty vector"); v->n--; } \
   static inline void vec_##S##_pop_front(vec_##S *v) { CXX_ASSERT(v->n > 0, "pop_front on empty deque"); v->p++; v->n--; } \
   static inline vec_##S vec_##S##_clone(vec_##S o) \
-  { vec_##S r; r.p = (T *)cxx_alloc(o.n * sizeof(T)); r.n = o.n; r.cap = o.n; \
+  { vec_##S r; r.p = (T *)cxx_alloc(cxx_vec_bytes(o.n, sizeof(T))); r.n = o.n; r.cap = o.n; \
     for (uint64_t __k = 0; __k < o.n; ++__k) r.p[__k] = o.p[__k]; return r; } \
   static inline vec_##S vec_##S##_from_range(const T *first, const T *last) \
   __CPROVER_requires(__CPROVER_same_object(first, last) && __CPROVER_POINTER_OFFSET(first) <= __CPROVER_POINTER_OFFSET(last)) \
@@ -251,10 +256,10 @@ uint64_t __g_vec_b;   /* ghost: arbitrary-but-fixed byte index observed by the c
   __CPROVER_ensures(__CPROVER_is_fresh(__CPROVER_return_value.p, (uint64_t)(last - first) * sizeof(T) + 1)) \
   __CPROVER_ensures(__g_vec_b < (uint64_t)(last - first) * sizeof(T) ==> \
                     ((const uint8_t *)__CPROVER_return_value.p)[__g_vec_b] == ((const uint8_t *)first)[__g_vec_b]) \
-  { vec_##S r; uint64_t n = (uint64_t)(last - first); r.p = (T *)cxx_alloc(n * sizeof(T)); r.n = n; r.cap = n; \
+  { vec_##S r; uint64_t n = (uint64_t)(last - first); r.p = (T *)cxx_alloc(cxx_vec_bytes(n, sizeof(T))); r.n = n; r.cap = n; \
     for (uint64_t __k = 0; __k < n; ++__k) r.p[__k] = first[__k]; return r; } \
   static inline vec_##S vec_##S##_filled(uint64_t n, T val) \
-  { vec_##S r; r.p = (T *)cxx_alloc(n * sizeof(T)); r.n = n; r.cap = n; \
+  { vec_##S r; r.p = (T *)cxx_alloc(cxx_vec_bytes(n, sizeof(T))); r.n = n; r.cap = n; \
     for (uint64_t __k = 0; __k < n; ++__k) r.p[__k] = val; return r; } \
   static inline void vec_##S##_assign_range(vec_##S *v, const T *first, const T *last) \
   __CPROVER_requires(__CPROVER_w_ok(v, sizeof(*v))) \
